@@ -310,3 +310,4 @@ TEXT["C20"]["note"] = TEXT["C20"]["note"].replace("Partial: the footprint premis
     "Partial: for the compiled C++ the footprint premises of the interleaving theorem are established from object-code tables, not from a semantics of machine code, and races are sampled, not excluded; for the assembly routines they follow from the machine models (atomicity at the granularity of one model instruction; hardware memory ordering and sub-instruction interleaving are not modelled).")
 TEXT["C20"]["technique"] = "Lean 4 proof (finite symbol tables; abstract interleaving theorem; machine-level frame/locality/two-core interleaving theorems for the three assembly models) + multi-threaded differential runs"
 TEXT["C17"]["level"] = TEXT["C17"]["level"].replace("Runtime side:", "(C17b) whenever the unmarshal models - the definitions the judge runs against the real code - accept a buffer, they fill exactly the number of slots that length discovery reported for it: never more (nothing behind the caller's array), never fewer.  Runtime side:", 1)
+TEXT["C19"]["level"] += ("  The interface as LINKED: every function and exported variable the three C headers declare is a global symbol with exactly that unmangled name in the objects built from the current tree, in all four configurations (GoView.c_declarations_defined_*), and nothing else is exported under a C name except the assembly routines.")
